@@ -2060,3 +2060,14 @@ Proof.
   injection E as E2 _ _. unfold start_of in E2. rewrite Hm, Ha in E2.
   exact (below_start_reladdr (m_start m) (l_addr l1) HA HS E2).
 Qed.
+
+(* ------------------------------------------------------------------ the function key separates every
+   attribute, also when a value is empty or repeats another field (system name = name vs none) *)
+Theorem fkey_separates_lemma : forall f g,
+  fkey_of f = fkey_of g <->
+  f_name f = f_name g /\ f_sysname f = f_sysname g /\ f_file f = f_file g /\ f_startline f = f_startline g.
+Proof.
+  intros f g. unfold fkey_of. split.
+  - intros H. injection H as H1 H2 H3 H4. auto.
+  - intros (H1 & H2 & H3 & H4). rewrite H1, H2, H3, H4. reflexivity.
+Qed.
